@@ -220,20 +220,111 @@ def run_system_case(ctx, res, seed, cost_kind):
     res.hit('allocation-' + cost_kind)
 
 
+def run_latent_case(ctx, res, seed):
+    """a component with a scalar input and a compressed FIELD input (SVD latent coefficients share one data-fidelity entry):
+    model calls are decoded back to latent grid coordinates; never twice, inside the latent domains, stored = returned,
+    grids only grow"""
+    from amisc import Component, Variable
+    from amisc.compression import SVD
+    from amisc.training import SparseGrid
+    from amisc.utils import to_surrogate_dataset
+    rng = random.Random(seed)
+    rank = rng.choice([1, 2, 3])
+    ngrid = rng.choice([20, 30])
+    grid = np.linspace(-1, 1, ngrid)
+    rs = np.random.RandomState(seed % 2 ** 31)
+    coef = 0.5 + rs.rand(40, rank)
+    fx = sum(coef[:, [k]] * np.sin((k + 1) * grid)[None, :] for k in range(rank))
+    fy = sum(coef[:, [k]] * np.cos((k + 1) * grid)[None, :] for k in range(rank))
+    pvar = Variable('p', compression=SVD(rank=rank, data_matrix={'px': fx, 'py': fy}, coords=grid, fields=['px', 'py']))
+    delta = Variable('delta', domain=(0.0, 1.0))
+    log = []
+
+    def model(inputs, p_coords=None):
+        d = np.atleast_1d(inputs['delta']); ax = np.atleast_2d(inputs['px']); ay = np.atleast_2d(inputs['py'])
+        out = d * np.mean(ax + ay, axis=-1) + np.mean(ax * ay, axis=-1)
+        log.append((d.copy(), ax.copy(), ay.copy(), np.atleast_1d(out).copy()))
+        return {'amp': out}
+    blim = (rng.choice([1, 2]), rng.choice([1, 2]) if rank < 3 else 1)
+    comp = Component(model, [delta, pvar], [Variable('amp')], data_fidelity=blim, vectorized=True,
+                     training_data=SparseGrid(opt_args={'locally_biased': False, 'maxfun': 60}))
+    info = {'latent': seed, 'rank': rank, 'beta_lim': list(blim)}
+    zero = ((), (0, 0))
+    nxt, hist, seen, grids_prev, returned = zero, [], {}, {}, {}
+    for step in range(rng.randint(3, 5)):
+        n0 = len(log)
+        comp.activate_index(*nxt)
+        hist.append(list(nxt[1]))
+        xg = {n: list(v) for n, v in comp.training_data.x_grids.items()}
+        for n, g in xg.items():
+            if g[:len(grids_prev.get(n, []))] != grids_prev.get(n, []):
+                res.failures.append({'kind': 'grid-points-moved', 'input': {**info, 'history': list(hist)}, 'observed': g})
+        grids_prev = xg
+        doms = comp.inputs.get_domains()
+        for (d, ax, ay, out) in log[n0:]:
+            lat, _ = to_surrogate_dataset({'delta': d, 'px': ax, 'py': ay}, comp.inputs, del_fields=True, p_coords=grid)
+            for r in range(len(d)):
+                key = []
+                for n in xg:
+                    z = float(np.atleast_1d(lat[n])[r])
+                    lb, ub = map(float, doms[n])
+                    if not (lb - 1e-6 * (ub - lb) <= z <= ub + 1e-6 * (ub - lb)):
+                        res.failures.append({'kind': 'evaluated-outside-domain', 'input': {**info, 'history': list(hist)},
+                                             'observed': {'variable': n, 'value': z, 'domain': [lb, ub]}})
+                    j = int(np.argmin([abs(z - g) for g in xg[n]]))
+                    if abs(z - xg[n][j]) > 1e-6 * (ub - lb):
+                        res.failures.append({'kind': 'evaluated-point-not-on-grid', 'input': {**info, 'history': list(hist)},
+                                             'observed': {'variable': n, 'value': z}})
+                    key.append(j)
+                key = tuple(key)
+                if key in seen:
+                    res.failures.append({'kind': 'model-evaluated-twice', 'signature': 'none', 'input': {**info, 'history': list(hist)},
+                                         'observed': {'coord': list(key), 'first_at_activation': seen[key], 'again_at_activation': step}})
+                seen.setdefault(key, step)
+                returned[key] = float(out[r])
+        res.hit('latent-activation')
+        cands = sorted(comp.candidate_set)
+        if not cands:
+            break
+        nxt = rng.choice(cands)
+    # stored == returned (coordinates of latent inputs are nested tuples: flatten them in x_grids order)
+    stored = {}
+    for coord, yd in comp.training_data.yi_map[()].items():
+        flat = []
+        for c in coord:
+            flat.extend(c if isinstance(c, tuple) else [c])
+        stored[tuple(flat)] = yd['amp']
+    if set(stored) != set(returned):
+        res.failures.append({'kind': 'stored-keys-differ-from-evaluated-keys', 'input': {**info, 'history': hist},
+                             'observed': sorted(set(stored) ^ set(returned))[:6]})
+    for k in set(stored) & set(returned):
+        if not abs(stored[k] - returned[k]) <= 1e-12 * max(1.0, abs(returned[k])):
+            res.failures.append({'kind': 'stored-value-is-not-the-model-output', 'input': {**info, 'history': hist},
+                                 'observed': {'coord': list(k), 'stored': stored[k], 'model': returned[k]}})
+    res.case(('latent', seed), len(hist) >= 3, {**info, 'history': hist, 'model_points': len(seen)})
+
+
 def run(ctx: core.Ctx, only=None) -> core.Result:
     res = core.Result()
     res.rule = ('(A) scripted random admissible histories on real Components with 0-2 model-, 1-3 data-, 0-2 '
                 'surrogate-fidelity dims, knots_per_level 1-3, normalised inputs, serial and vectorised models (30 %: serial models that '
                 'RAISE at up to 3 evaluations — failed points stay NaN and are never requested again), logging every '
                 'model call; (B) adaptive System.fit on a 2-component chain with cost profiles none/const/per-alpha/'
-                'per-call-varying and get_allocation vs ground truth. non-trivial = >= 4 activations (A) / any (B).')
+                'per-call-varying and get_allocation vs ground truth; (C) components with a compressed field input (latent '
+                'coefficients as grid dimensions). non-trivial = >= 4 activations (A) / any (B).')
     lines, post = [], []
     keys = ('nin', 'alpha_lim', 'beta_lim', 'surr_lim', 'kpl', 'domains', 'norms_in', 'nsteps', 'fseed', 'vectorized', 'cost', 'failing')
     if only is not None:
         cases = [o.get('input', o) for o in only]
     else:
         cases = core.corpus_cases('C09') + [gen_case(ctx.rng) for _ in range(ctx.scale(24, 250))]
+    if only is None:
+        cases = cases + [{'latent': ctx.rng.randrange(10 ** 6)} for _ in range(ctx.scale(4, 30))]
     for case in cases:
+        if 'latent' in case:
+            with core.guarded(res, 'scenario-raised', case):
+                run_latent_case(ctx, res, case['latent'])
+            continue
         if 'cost_profile' in case and 'nin' not in case:
             with core.guarded(res, 'scenario-raised', case):
                 run_system_case(ctx, res, case['seed'], case['cost_profile'])
